@@ -97,16 +97,24 @@ def _nc_function(fn, leaves, calls_hook):
             return NCEval.ev(self, n)
 
     ev = E({}, morphisms=())
+    from . import roles
+
+    defs = roles.Defs(fn)
     for st in fn.body:
         if isinstance(st, ast.Expr) and isinstance(st.value, ast.Constant):
             continue
         if isinstance(st, (ast.Import, ast.ImportFrom)):
             continue
         if isinstance(st, ast.Assign) and isinstance(st.targets[0], ast.Name):
-            env[st.targets[0].id] = ev.ev(st.value)
+            # a local may name a fragment that is no term on its own (`t = fmm_interface.evaluate(v)`, used as t[:, 0]):
+            # its readers see the defining expression (roles.inline), so only a fragment that is a term is recorded
+            try:
+                env[st.targets[0].id] = ev.ev(roles.inline(st.value, defs))
+            except AnalysisError:
+                env.pop(st.targets[0].id, None)
             continue
         if isinstance(st, ast.Return):
-            return ev.ev(st.value)
+            return ev.ev(roles.inline(st.value, defs))
         raise AnalysisError("evaluator closure %s: unsupported statement" % fn.name)
     raise AnalysisError("evaluator closure %s has no return" % fn.name)
 
